@@ -46,6 +46,7 @@ type recvIn struct {
 	Chunk       int     `json:"chunk,omitempty"` // max bytes per Read
 	LeakCheck   bool    `json:"leakcheck,omitempty"`
 	WS          bool    `json:"ws,omitempty"`            // over the real WebsocketTransport (one frame per element)
+	PeerCut     bool    `json:"peercut,omitempty"`       // WS only: the TCP connection under the websocket is reset by the peer; the loss must be detected through the keepalive and reported
 	Logged      bool    `json:"logged,omitempty"`        // real XMPPTransport read path with the traffic logger, over a scripted net.Conn
 	ErrWithData bool    `json:"err_with_data,omitempty"` // the last bytes and the read error arrive in the same Read call
 }
@@ -591,10 +592,11 @@ func (h *stubHooks) ReceivedStreamClose() { h.lg.addSync(L(Z(8))); h.tr.Received
 // frame; when everything has been routed the CLIENT closes the transport (a loss of
 // the websocket by the peer is only noticed through the keepalive ping, C18).
 func runRecvWS(in recvIn) Sx {
-	ln, err := net.Listen("tcp", "127.0.0.1:0")
+	base, err := net.Listen("tcp", "127.0.0.1:0")
 	if err != nil {
 		return L(SBytes("listen-failed"))
 	}
+	ln := &kaKeepListener{Listener: base} // remembers the accepted TCP connections so that they can be cut
 	defer ln.Close()
 	ctx, cancel := context.WithCancel(context.Background())
 	defer cancel()
@@ -674,7 +676,12 @@ func runRecvWS(in recvIn) Sx {
 	}
 	xmpp.VerifSetSession(c, sm)
 	done := make(chan struct{})
-	go func() { xmpp.VerifRecv(c, make(chan struct{})); close(done) }()
+	quitKA := make(chan struct{})
+	if in.PeerCut {
+		// as Client.Connect does: keepalive and receiver share the quit channel
+		go xmpp.VerifKeepalive(tr, 4*time.Millisecond, quitKA)
+	}
+	go func() { xmpp.VerifRecv(c, quitKA); close(done) }()
 	select {
 	case <-sendDone:
 	case <-time.After(5 * time.Second):
@@ -723,7 +730,12 @@ func runRecvWS(in recvIn) Sx {
 	}
 	time.Sleep(2 * time.Millisecond)
 	closed := make(chan struct{})
-	go func() { tr.Close(); close(closed) }()
+	if in.PeerCut {
+		ln.cut(false) // TCP reset under the websocket: only a failing keepalive can notice
+		close(closed)
+	} else {
+		go func() { tr.Close(); close(closed) }()
+	}
 	loopEnded := true
 	select {
 	case <-done:
